@@ -106,6 +106,10 @@ def getOp? (hs : Array (Option Handle)) (j : Json) : Option (Op Q) := do
     pure (.named (← H "t") (← fieldStr? j "name") (← getBinOp? (← fieldStr? j "f"))
       (← fieldBool? j "raw") (← field? j "vals" >>= getCxs?)
       (← getIdx? ((field? j "idx").getD Json.null)))
+  | "selset" =>
+    let sel ← optField? j "sel" (fun x => do (← getList? x).mapM getNat?)
+    let bvals ← optField? j "bvals" getCxs?
+    pure (.setVarSel (← H "t") (← fieldStr? j "name") sel bvals (← field? j "vals" >>= getCxs?))
   | "iop" =>
     pure (.namedIop (← H "t") (← fieldStr? j "name") (← getBinOp? (← fieldStr? j "f"))
       (← field? j "vals" >>= getCxs?))
